@@ -680,6 +680,7 @@ def selection_traces(net, eq, rec, name, complete=True):
         return groups, listed, (mb_names.index(pre) if pre in mb_names else NONE)
 
     selected_parents = {}
+    band_sels = {}            # id(multiband amplifier) -> {id(band amplifier): its selection}
     for n, s in enumerate(rec.select_calls):
         r = s['ctx']
         if r is None or id(r['node']) not in band_of:
@@ -699,7 +700,9 @@ def selection_traces(net, eq, rec, name, complete=True):
         tname = f'{name}|sel{n}|{s["uid"]}'
         traces.append(dict(name=tname, kind=1 if parent is not None else 0, jp=jp, c=c, lib=lib,
                            chosen=names.index(s['chosen']) if not refused else 0, refused=refused,
-                           hasList=1 if listed else 0, groups=groups, ptype=ptype, named=NONE, members=[]))
+                           hasList=1 if listed else 0, groups=groups, ptype=ptype, named=NONE, members=[], sels=[]))
+        if parent is not None and not refused:
+            band_sels.setdefault(id(parent), {})[id(node)] = dict(c=c, lib=lib, chosen=names.index(s['chosen']))
         ctx.append(dict(name=tname, uid=s['uid'], gain_target=round(s['gain_target'], 6),
                         power_target=round(s['power_target'], 6), candidates_given=s['candidates'], chosen=s['chosen'],
                         own_list=own, roadm_list=rdm, models=names, raman_allowed=s['raman_allowed'],
@@ -717,10 +720,12 @@ def selection_traces(net, eq, rec, name, complete=True):
                 members.append(dict(id=names.index(v), fmin=mhz(a.params.f_min), fmax=mhz(a.params.f_max),
                                     bfmin=mhz(b['f_min']), bfmax=mhz(b['f_max'])))
         final = parent.params.type_variety
+        mine = band_sels.get(id(parent), {})
+        sels = list(mine.values()) if len(mine) == len(parent.amplifiers) else []    # every band model auto-selected
         tname = f'{name}|mb{n}|{parent.uid}'
         traces.append(dict(name=tname, kind=2, jp=1, c=EMPTY_C, lib=[], chosen=0, refused=0,
                            hasList=1 if listed else 0, groups=groups, ptype=ptype,
-                           named=mb_names.index(final) if final in mb_names else NONE, members=members))
+                           named=mb_names.index(final) if final in mb_names else NONE, members=members, sels=sels))
         ctx.append(dict(name=tname, uid=parent.uid, chosen={bn: a.params.type_variety for bn, a in parent.amplifiers.items()},
                         multiband_type=final, operator_multiband_type=rec.mb_pre.get(id(parent), ''), listed=listed))
     return traces, ctx
